@@ -479,6 +479,12 @@ Fixpoint xsession (fuel : nat) (x : xstate) (steps : list step) : option (list (
       end
   end.
 
+(* the states after a session *)
+Fixpoint mfinal (fuel : nat) (d : dstate) (steps : list step) : dstate :=
+  match steps with [] => d | st :: r => mfinal fuel (fst (fst (mstep fuel d st))) r end.
+Fixpoint xfinal (fuel : nat) (x : xstate) (steps : list step) : xstate :=
+  match steps with [] => x | st :: r => xfinal fuel (fst (fst (xstep fuel x st))) r end.
+
 End WithCode.
 
 Definition minit : mstate := mkM [] [] [] [] [] [] 1.
